@@ -22,6 +22,7 @@ pub fn scenarios() -> Vec<Scenario> {
         scn!(scenario_public_package_from_commitments, 2),
         scn!(scenario_network_mixes_runs, 4),
         scn!(scenario_common_view_of_mixed_contributions, 2),
+        crate::wrap::scn_dkg(2),
     ]
 }
 
